@@ -21,7 +21,7 @@ pub fn prop() -> HistProp {
     HistProp {
         id: "C18",
         level: "exploration",
-        rule: "stamping: random histories under a harness clock that jumps by generated amounts (0..55 h), access-date option on and off; model: creation stamps created/modified/accessed once from the clock, each successful write sets modified, reads set accessed only with the option on, explicit set_* stores the value floored to 10 ms / 2 s / 1 day, rename and operations on other entries change nothing (directories written into are exempt); raw date/time words decoded independently after every call; non-trivial = history with a file creation, a write and (a rename or an explicit set_*). Round trip: see the exhaustive blocks",
+        rule: "stamping: random histories under a harness clock that jumps by generated amounts (0..55 h), access-date option on and off; model: creation stamps created/modified/accessed once from the clock, each successful write sets modified, reads set accessed only with the option on, explicit set_* stores the value floored to 10 ms / 2 s / 1 day, rename and operations on other entries change nothing (directories written into are exempt); raw date/time words decoded independently after every call; non-trivial = history with a file creation, a write and (a rename or an explicit set_*); run once with a flush after every call and once with the library's deferred write-back left alone (several writes / clock jumps / set_* through one handle, judged when the handle is closed). Round trip: see the exhaustive blocks",
         run_cfg: rc,
         gen_cfg: gc,
         nontrivial,
@@ -299,6 +299,15 @@ pub fn run(tier: Tier, seed: u64) -> i32 {
     // stamping rules
     if !rep.failed() {
         rep.add(hist::random_block(&hp, "stamping_random_histories", seed, tier.pick(hp.quick_cases, hp.thorough_cases)));
+    }
+    // the same rules with the library's deferred write-back left alone (no flush after each call): several writes, clock
+    // jumps and explicit set_* through ONE handle before its entry reaches the disk; judged once the handle is closed
+    if !rep.failed() {
+        let mut hp2 = prop();
+        hp2.run_cfg.flush_each = false;
+        hp2.gen_cfg.max_ops = 40;
+        hp2.gen_cfg.weights = vec![(K::NewFileWritten, 10), (K::OpenFile, 8), (K::CreateFile, 6), (K::Write, 26), (K::Tick, 22), (K::SetTimes, 10), (K::CloseFile, 9), (K::Flush, 4), (K::Seek, 6), (K::Read, 5), (K::Truncate, 3), (K::Rename, 4), (K::Remount, 2), (K::List, 1)];
+        rep.add(hist::random_block(&hp2, "stamping_deferred_writeback_histories", seed ^ 0x18, tier.pick(8000, 120000)));
     }
     rep.finish()
 }
